@@ -33,7 +33,9 @@ ASSUMPTIONS = [
 ]
 RULE = ("a case = (loop configuration, durations of auxiliary awaited tasks, block tree of depth 1..3 with deadlines "
         "from {None,-1,0,1..6} around sleep(0)/sleep(k)/await-task items, optional environment cancels); run on a "
-        "virtual clock; non-trivial when the run itself shows at least one of: a timer that fired, a TimeoutError, "
+        "virtual clock; 35 % of the random cases (and a systematic grid) spawn 1-2 child Python tasks from inside the "
+        "main task's block tree, each child running its own timed blocks; "
+        "non-trivial when the run itself shows at least one of: a timer that fired, a TimeoutError, "
         "a foreign interrupt passing an inner level, equal deadlines on two levels, a deadline equal to a "
         "completion time, a deadline not in the future, a refused interrupt; distinct = hash of the case JSON")
 
@@ -41,7 +43,7 @@ LOOPS = ["asyncio", "sched", "prio"]
 THEOREMS = {
     "interrupt-after-exit": "Asynkit.C16.no_interrupt_after_exit",
     "exception-after-block": "Asynkit.C16.no_interrupt_after_exit",
-    "outlived-deadline": "Asynkit.C16.fires_if_outlives",
+    "outlived-deadline": "Asynkit.C16.fires_if_outlives / timer_installed_whenever_timed / tasks_independent",
     "timeout-at-wrong-time": "Asynkit.C16.fires_if_outlives",
     "wrong-level": "Asynkit.C16.nested_level_exact",
     "foreign-interrupt-changed": "Asynkit.C16.nested_level_exact",
@@ -75,12 +77,35 @@ def gen_block(rng, depth, naux):
     return {"d": d, "body": body}
 
 
+def all_bodies(blk):
+    yield blk["body"]
+    for it in blk["body"]:
+        if it[0] == "blk":
+            yield from all_bodies(it[1])
+
+
 def gen_case(rng):
     naux = rng.choice([0, 0, 1, 2])
     case = {"loop": rng.choice(LOOPS), "aux": [rng.randint(1, 6) for _ in range(naux)],
             "prog": gen_block(rng, rng.randint(1, 3), naux)}
-    if rng.random() < 0.1:
+    r = rng.random()
+    if r < 0.1:
         case["cancel_at"] = [[rng.randint(0, 5), rng.randint(0, 3)]]
+    elif r < 0.45:
+        # child tasks, spawned somewhere inside the main task's block tree (so usually inside timed blocks),
+        # each with its own timeouts around work that may or may not outlive them and the parent's blocks
+        case["children"] = []
+        for j in range(rng.choice([1, 1, 2])):
+            prog = gen_block(rng, rng.randint(1, 2), naux)
+            if rng.random() < 0.6:
+                prog["d"] = rng.choice([1, 2, 3, 5, 8, 10, 12])
+                prog["body"].append(["s", rng.choice([1, 2, 4, 8, 15])])
+            case["children"].append({"pre": rng.choice([0, 0, 0, 1, 3]), "prog": prog})
+            bodies = list(all_bodies(case["prog"]))
+            body = rng.choice(bodies[1:] or bodies) if rng.random() < 0.7 else bodies[0]
+            body.insert(rng.randint(0, len(body)), ["spawn", j])
+            if rng.random() < 0.4:
+                bodies[0].append(["join", j])
     return case
 
 
@@ -113,9 +138,9 @@ def full(case):
     r = execute(case)
     if any(lv["d"] is None for lv in r.levels.values()) and not case.get("cancel_at"):
         r2 = execute(case, inline_none=True)
-        if canon_log(r.log) != canon_log(r2.log):
+        if canon_log(r) != canon_log(r2):
             r.bad.append(("none-differs", "the run with task_timeout(None) levels differs from the run without them: "
-                          f"{canon_log(r.log)[:12]} vs {canon_log(r2.log)[:12]}"))
+                          f"{canon_log(r)[:12]} vs {canon_log(r2)[:12]}"))
     return r
 
 
@@ -141,6 +166,20 @@ def neighbours(case):
         c2 = json.loads(json.dumps(c))
         c2.pop("cancel_at")
         yield c2
+
+    for j in range(len(c.get("children", []))):
+        if c["children"][j].get("pre"):
+            c2 = json.loads(json.dumps(c))
+            c2["children"][j]["pre"] = 0
+            yield c2
+        for it_i in range(len(c["children"][j]["prog"]["body"])):
+            c2 = json.loads(json.dumps(c))
+            it = c2["children"][j]["prog"]["body"][it_i]
+            if it[0] == "blk":
+                c2["children"][j]["prog"]["body"][it_i:it_i + 1] = it[1]["body"]
+            else:
+                del c2["children"][j]["prog"]["body"][it_i]
+            yield c2
 
     def walk(blk, path):
         for i, it in enumerate(blk["body"]):
@@ -232,6 +271,16 @@ def systematic(loop):
             body = [["s", k]] if k else [["s0"]]
             yield {"loop": loop, "aux": [], "prog": {"d": d, "body": body + [["s0"]]}}
             yield {"loop": loop, "aux": [2], "prog": {"d": d, "body": [["aw", 0]] + body}}
+    # a child task spawned inside the parent's timed block, with its own (earlier / equal / later) deadline,
+    # working shorter / longer than that, the parent's block ending before / after
+    for da in [None, 2, 5]:
+        for db in [1, 2, 5, 9]:
+            for work in [1, 3, 12]:
+                for psleep in [1, 7]:
+                    for pre in [0, 3]:
+                        yield {"loop": loop, "aux": [], "children": [
+                            {"pre": pre, "prog": {"d": db, "body": [["s", work]]}}],
+                            "prog": {"d": da, "body": [["spawn", 0], ["s", psleep]]}}
     for d1 in [1, 2, 3, None]:
         for d2 in [1, 2, 3, None, 0]:
             for k in [1, 2, 3]:
